@@ -158,9 +158,25 @@ Definition model_scan_run (t : tables) (fs : list fcase) (enabled disabled : lis
 Definition model_scan_list (fs : list fcase) : res (list (str * lblock)) :=
   let? ctx := scan_context fs in Ok (list_of_context ctx).
 
+(* the blocks of each file in the same ORDER (files themselves come in hash-map order) *)
+Definition of_file (p : str) (l : list (str * lblock)) : list (str * lblock) :=
+  filter (fun x => str_eqb p (fst x)) l.
+Definition per_file_order_eqb (a b : list (str * lblock)) : bool :=
+  forallb (fun x => list_eqb plblock_eqb (of_file (fst x) a) (of_file (fst x) b)) a.
+
+(* a file's blocks are listed in source order: strictly increasing start-tag position *)
+Fixpoint in_source_order (l : list (str * lblock)) : bool :=
+  match l with
+  | [] => true
+  | x :: r =>
+    forallb (fun y => negb (str_eqb (fst x) (fst y))
+                      || pos_ltb (l_line (snd x), l_col (snd x)) (l_line (snd y), l_col (snd y))) r
+    && in_source_order r
+  end.
+
 Definition list_agrees (m : res (list (str * lblock))) (o : lobs) : bool :=
   match m, o with
-  | Ok a, LObsList b => mset_eqb plblock_eqb a b
+  | Ok a, LObsList b => mset_eqb plblock_eqb a b && per_file_order_eqb a b
   | Err e, LObsErr c => e =? c
   | Panic _, LObsPanic => true
   | _, _ => false
